@@ -359,6 +359,11 @@ func Excluded(feature string) bool {
 	return false
 }
 
+// InReplay reports whether a saved case is being replayed (TestReplay) rather than generated: a
+// check that keeps the input class of a known finding out of the generated search must still
+// judge the pinned case of that finding.
+func InReplay() bool { return os.Getenv("VERIF_REPLAY") != "" }
+
 // Count adds to a free-form evidence counter.
 func Count(name string, n int) {
 	countMu.Lock()
